@@ -1,7 +1,7 @@
 from ..config import Config
 from ..abbreviation import parse as abbreviation, Abbreviation, AbbreviationNode, AbbreviationAttribute
 from .attributes import merge_attributes as attributes
-from .snippets import resolve_snippets as snippets
+from .snippets import resolve_snippets as snippets, parser_options
 from .implicit_tag import implicit_tag
 from .lorem import lorem
 from .addon.xsl import xsl
@@ -25,14 +25,7 @@ def parse(abbr: str, config: Config):
 
     text = config.get('text')
     if isinstance(abbr, str):
-        abbr = abbreviation(abbr, {
-            'text': text,
-            'variables': config.variables,
-            'options': config.options,
-            'max_repeat': config.get('maxRepeat') or config.get('max_repeat'),
-            'jsx': bool(config.options.get('jsx.enabled')),
-            'href': config.options.get('markup.href')
-        })
+        abbr = abbreviation(abbr, parser_options(config))
 
     # Run abbreviation resolve in two passes:
     # 1. Map each node to snippets, which are abbreviations as well. A single snippet
